@@ -94,48 +94,62 @@ pub fn run(args: &Args) {
             let input = rcvar_of(d);
             let got = guarded(|| expr.search(&input));
             let witness = |exp: Value, got: Value| json!({"expression": text, "document": d, "expected": exp, "got": got, "tree": want, "seed": args.seed, "shard": args.shard, "index": i});
-            match (expected, got) {
-                (_, Err(p)) => rep.violation(&format!("C01/panic-in-search/{}", panic_site(&p)), witness(Value::Null, json!({"panic": p}))),
-                (Err(e), _) if matches!(e.kind, ErrKind::Unconstrained(_)) => rep.count("unconstrained_skipped"),
-                (Err(e), Ok(Err(ge))) => {
-                    if e.class() == err_class(&ge) {
-                        rep.count("agree_error");
-                    } else {
-                        rep.violation("C01/error-class-mismatch", witness(json!({"error": e.class()}), err_json(&ge)));
-                    }
+            let got = match got {
+                Err(p) => {
+                    rep.violation(&format!("C01/panic-in-search/{}", panic_site(&p)), witness(Value::Null, json!({"panic": p})));
+                    continue;
                 }
-                (Err(e), Ok(Ok(g))) => rep.violation("C01/expected-error-got-value", witness(json!({"error": e.class()}), json!(g.to_string()))),
-                (Ok(x), Ok(Err(ge))) => rep.violation("C01/expected-value-got-error", witness(x, err_json(&ge))),
-                (Ok(x), Ok(Ok(g))) => match value_of(&g) {
-                    Ok(gv) => {
-                        if val_eq(&x, &gv, 1e-12) {
-                            rep.count("agree_value");
-                            if !x.is_null() && nodes >= 3 && kinds.len() >= 2 {
+                Ok(g) => g,
+            };
+            let got_n: Result<Value, &'static str> = match &got {
+                Ok(v) => match value_of(v) {
+                    Ok(j) => Ok(j),
+                    Err(w) => {
+                        rep.violation("C01/non-json-result", witness(Value::Null, json!(w)));
+                        continue;
+                    }
+                },
+                Err(e) => Err(err_class(e)),
+            };
+            let agree = match (&expected, &got_n) {
+                (Err(e), _) if matches!(e.kind, ErrKind::Unconstrained(_)) => {
+                    rep.count("unconstrained_skipped");
+                    continue;
+                }
+                (Ok(x), Ok(g)) => val_eq(x, g, 1e-12),
+                (Err(e), Err(c)) => e.class() == *c,
+                _ => false,
+            };
+            if agree {
+                match &expected {
+                    Ok(x) => {
+                        rep.count("agree_value");
+                        if !x.is_null() {
+                            rep.count("agree_nonnull");
+                            if nodes >= 3 && kinds.len() >= 2 {
                                 rep.nontrivial(thash ^ value_hash(d).rotate_left(17));
                             }
-                            if !x.is_null() {
-                                rep.count("agree_nonnull");
-                            }
-                            if rep.samples.len() < rep.sample_cap && !x.is_null() && nodes >= 4 && i % 7 == 0 {
-                                rep.sample(json!({"expression": text, "document": d, "result": gv}));
-                            }
-                        } else {
-                            // attribute to the recorded deviation class if (and only if) the
-                            // variant grammar explains the observed value
-                            let alt = Opts { dot_list_stops: true, ..Opts::strict() };
-                            let explained = match parse(&text, &alt) {
-                                Ok(q) if canon(&q) != want => matches!(ev.eval(&q, d), Ok(ref y) if val_eq(y, &gv, 1e-12)),
-                                _ => false,
-                            };
-                            if explained {
-                                rep.violation("C01/projection-rhs-ends-after-dot-multiselect-list", witness(x, gv));
-                            } else {
-                                rep.violation("C01/value-mismatch", witness(x, gv));
+                            if rep.samples.len() < rep.sample_cap && nodes >= 4 && i % 7 == 0 {
+                                rep.sample(json!({"expression": text, "document": d, "result": x}));
                             }
                         }
                     }
-                    Err(w) => rep.violation("C01/non-json-result", witness(x, json!(w))),
-                },
+                    Err(_) => rep.count("agree_error"),
+                }
+            } else {
+                let exp = match &expected {
+                    Ok(x) => x.clone(),
+                    Err(e) => json!({"error": e.class()}),
+                };
+                let g = match &got {
+                    Ok(v) => json!(v.to_string()),
+                    Err(e) => err_json(e),
+                };
+                if d15_explains(&ev, &text, &want, d, &got_n) {
+                    rep.violation("C01/projection-rhs-ends-after-dot-multiselect-list", witness(exp, g));
+                } else {
+                    rep.violation("C01/mismatch", witness(exp, g));
+                }
             }
         }
     }
